@@ -200,21 +200,21 @@ Proof.
   intros w st st' Hinv H. unfold pad_alignment_output in H.
   destruct (s_outputs st) as [|[sc v] rest]; [discriminate|].
   if_ok H Hs; [inversion H; subst; exact Hinv|].
-  destruct (s_unused st); [discriminate|]. eapply pad_loop_inv; eassumption.
+  eapply pad_loop_inv; eassumption.
 Qed.
 
-Lemma add_loop_inv : forall fee w fuel deficit st st',
-  Inv w st -> add_loop fee w fuel deficit st = Ok st' -> Inv w st'.
+Lemma add_loop_inv : forall fee w fuel mv st st',
+  Inv w st -> add_loop fee w fuel mv st = Ok st' -> Inv w st'.
 Proof.
-  intros fee w fuel. induction fuel as [|f IH]; intros deficit st st' Hinv H; cbn [add_loop] in H;
-    if_ok H Hz; try (inversion H; subst; exact Hinv).
-  if_ok H Hov.
+  intros fee w fuel. induction fuel as [|f IH]; intros mv st st' Hinv H; cbn [add_loop] in H;
+    destruct (last_output (s_outputs st)) as [[ls lv]|]; try discriminate;
+    if_ok H Hov; if_ok H Hle; try (inversion H; subst; exact Hinv).
+  if_ok H Hov2.
   bind_ok H r Hsel. destruct r as [[u val] st1].
   if_ok H Hb.
   bind_ok H outs Ho.
   pose proof (Inv_select w st _ _ u val st1 false outs (s_unused st1) Hinv Hsel) as Hinv'.
   cbv iota in Hinv'.
-  if_ok H Hd; [inversion H; subst; exact Hinv'|].
   eapply IH; [exact Hinv'|exact H].
 Qed.
 
@@ -223,8 +223,6 @@ Lemma add_value_inv : forall fee w st st',
 Proof.
   intros fee w st st' Hinv H. unfold add_value in H.
   destruct (last_output (s_outputs st)) as [[ls lv]|]; [|discriminate].
-  if_ok H Hov.
-  if_ok H Hlt; [inversion H; subst; exact Hinv|].
   eapply add_loop_inv; eassumption.
 Qed.
 
@@ -300,12 +298,12 @@ Lemma count_cons : forall A (p : A -> bool) x l,
 Proof. intros. unfold count. cbn [filter]. destruct (p x); reflexivity. Qed.
 
 (* outputs after the recipient's: all checked to be change *)
-Lemma b_outputs_norecipient : forall fee w outs offset so,
-  b_outputs fee w outs offset so = Ok tt ->
+Lemma b_outputs_norecipient : forall fee w vb outs offset so,
+  b_outputs fee w vb outs offset so = Ok tt ->
   count (fun o => fst o =? w_recipient w) outs = 0%nat ->
   forall o, In o outs -> fst o <> w_recipient w /\ is_change w (fst o).
 Proof.
-  intros fee w outs. induction outs as [|[s v] r IH]; intros offset so H Hc o Hin; [destruct Hin|].
+  intros fee w vb outs. induction outs as [|[s v] r IH]; intros offset so H Hc o Hin; [destruct Hin|].
   rewrite count_cons in Hc. cbn [fst] in Hc. cbn [b_outputs] in H.
   destruct (s =? w_recipient w) eqn:Hs; [discriminate|].
   bind_ok H t Ht. bind_ok H o' Ho.
@@ -316,15 +314,15 @@ Proof.
   - eapply IH; eassumption.
 Qed.
 
-Lemma b_outputs_ok : forall fee w outs offset so,
-  b_outputs fee w outs offset so = Ok tt ->
+Lemma b_outputs_ok : forall fee w vb outs offset so,
+  b_outputs fee w vb outs offset so = Ok tt ->
   count (fun o => fst o =? w_recipient w) outs = 1%nat ->
   exists pre rv post, outs = pre ++ (w_recipient w, rv) :: post /\
     (forall o, In o (pre ++ post) -> fst o <> w_recipient w /\ is_change w (fst o)) /\
     offset + total_out pre = so /\
-    b_check_recipient fee w rv = Ok tt.
+    b_check_recipient fee w vb rv = Ok tt.
 Proof.
-  intros fee w outs. induction outs as [|[s v] r IH]; intros offset so H Hc; [discriminate|].
+  intros fee w vb outs. induction outs as [|[s v] r IH]; intros offset so H Hc; [discriminate|].
   rewrite count_cons in Hc. cbn [fst] in Hc. cbn [b_outputs] in H.
   destruct (s =? w_recipient w) eqn:Hs.
   - apply N.eqb_eq in Hs. subst s. inversion Hc as [Hc'].
@@ -391,16 +389,22 @@ Proof.
     apply IH in H. cbn [sum_map snd]. lia.
 Qed.
 
-Lemma b_check_recipient_ok : forall fee w rv,
-  b_check_recipient fee w rv = Ok tt -> target_clause fee w rv.
+Lemma b_check_recipient_ok : forall fee w vb rv,
+  b_check_recipient fee w vb rv = Ok tt -> target_clause fee w vb rv.
 Proof.
-  intros fee w rv H. unfold b_check_recipient in H. unfold target_clause.
+  intros fee w vb rv H. unfold b_check_recipient in H. unfold target_clause, one_output_fee, change_dust.
+  if_ok H Hs. unfold max_change_dust in H.
   destruct (w_target w) as [|p|t].
   - bind_ok H lim Hl. apply add_amt_ok in Hl. subst lim.
-    destruct (N.leb_spec rv (TB_MAX_POSTAGE + fee TB_ADDITIONAL_OUTPUT_VBYTES)); [assumption|discriminate].
-  - bind_ok H lim Hl. apply add_amt_ok in Hl. subst lim.
-    destruct (N.leb_spec rv (p + fee TB_ADDITIONAL_OUTPUT_VBYTES)); [assumption|discriminate].
-  - destruct (N.ltb_spec rv t); [discriminate|assumption].
+    destruct (N.leb_spec rv (TB_MAX_POSTAGE + (fee (vb + TB_ADDITIONAL_OUTPUT_VBYTES) - fee vb))); [assumption|discriminate].
+  - bind_ok H lim0 Hl0. apply add_amt_ok in Hl0. subst lim0.
+    bind_ok H lim Hl. apply add_amt_ok in Hl. subst lim.
+    match type of H with (if ?c then _ else _) = _ => destruct c eqn:Hc; [|discriminate] end.
+    apply N.leb_le in Hc. exact Hc.
+  - destruct (N.ltb_spec rv t); [discriminate|]. split; [assumption|].
+    bind_ok H lim Hl. apply add_amt_ok in Hl. subst lim.
+    match type of H with (if ?c then _ else _) = _ => destruct c eqn:Hc; [|discriminate] end.
+    apply N.leb_le in Hc. lia.
 Qed.
 
 Theorem build_ok_implies_spec : forall fee w tx,
@@ -418,7 +422,7 @@ Proof.
   apply negb_false_iff in H3, H4, H6, H7. subst found.
   apply Nat.eqb_eq in H4. apply N.eqb_eq in H6.
   apply b_sat_offset_ok in Hso. destruct Hso as [before [after [Hin [Hbw Hso]]]].
-  destruct (b_outputs_ok _ _ _ _ _ Hout H4) as [pre [rv [post [Houts [Hch [Hpre Hchk]]]]]].
+  destruct (b_outputs_ok _ _ _ _ _ _ Hout H4) as [pre [rv [post [Houts [Hch [Hpre Hchk]]]]]].
   apply b_add_inputs_ok in Htin. destruct Htin as [Htin Hwal].
   apply b_sub_outputs_ok in Hact.
   assert (Hvo : value_of w (w_out_id w) = amount). { unfold value_of. rewrite Ham. reflexivity. }
